@@ -457,8 +457,17 @@ fn mark_closed(fd: i32, how_write_only: bool) {
 #[no_mangle]
 pub unsafe extern "C" fn shutdown(fd: i32, how: i32) -> i32 {
     if is_sim(fd) {
+        // as Linux does: a connection that was reset is no longer connected, shutdown(2) says ENOTCONN
+        let was_reset = {
+            let g = lock();
+            g.as_ref().and_then(|net| ep_of(net, fd).map(|i| net.eps[i].reset)).unwrap_or(false)
+        };
         mark_closed(fd, true);
         let _ = how;
+        if was_reset {
+            set_errno(libc::ENOTCONN);
+            return -1;
+        }
         return 0;
     }
     unsafe { real_shutdown()(fd, how) }
